@@ -87,6 +87,7 @@ Obj &obj_get(int id, const char *kind_prefix = 0);
 bool obj_exists(int id);
 void obj_del(int id);
 void obj_reset_all();
+void obj_check_all();
 
 typedef void (*handler_t)(const Args &);
 void reg(const char *op, handler_t h);
